@@ -137,7 +137,7 @@ func C16(c *Ctx) {
 	r.Rule("C16-a", "parseExpr starts with p.ExprCnt++ followed by `if p.ExprCnt > p.maxExprCnt { panic(errMaxExprCnt) }`")
 	r.Rule("C16-b", "every loop without a finite bound in an evaluator calls a must-charge function on every cyclic path (listed exception: the leader's growth loop, bounded by strict growth of the end offset)")
 	r.Rule("C16-b2", "removing parseExpr from the call graph of the evaluators leaves it acyclic, and parse<Kind> functions are called only from parseExpr")
-	r.Rule("C16-c", "the deferred handler in parse() converts the panic into the returned error list (see C11-e)")
+	r.Rule("C16-c", "the deferred handler in parse() converts the panic into the returned error list (see C11-e); addErr and addErrAt hand every error on, unconditionally, so the budget error cannot be dropped at record time")
 	r.Rule("C16-d", "newParser: if p.maxExprCnt == 0 { p.maxExprCnt = math.MaxUint64 }")
 
 	abs := c.allAbs()
@@ -310,6 +310,7 @@ func c16cd(c *Ctx, v *variants.Variant) {
 			return true
 		})
 	}
+	errAlwaysRecorded(c, v, "C16-c")
 	r.Check(okH, "C16-c", "T.parse:budget-panic-becomes-error", vn, "builder/static_code.go", "recover handler records an error-typed panic value and returns the list", "no recover handler recording error-typed panic values")
 	np := v.Func("", "newParser")
 	okD := false
